@@ -47,8 +47,8 @@ def run(ctx):
     for i, j, s in reg.aggregates('server::TrackedRequest'):
         ok = len(regcall) == 1
         if ok:
-            pred = lambda x: result_of(P, x, ('call', reg.id, regcall[0][0]))
-            ok = bool(guarded_by_variant(F, P, reg, i, pred, ['Ok']))
+            pred = lambda x: result_of(P, x, ('call', reg.id, regcall[0][0]), through=('Result::map_err', 'Result::inspect_err'))   # error mapping keeps Ok-ness
+            ok = bool(guarded_by_variant(F, P, reg, i, pred, ['Ok', 'Continue']))
         R.ob('C08.yield', ('BaseChannel request registration', 'tracked request only on Ok'), ok, 'a TrackedRequest exists only if the id was freshly stored', [reg.loc(s)])
     pn = S.poll_next
     reach = reachable_local_fns(F, pn)
